@@ -11,6 +11,7 @@ sign), sampling ≠ 0, wavelength, order, list of further tilts.
 -/
 import AbtemVerif.Lib.WaveOptics
 import AbtemVerif.Lib.SmallDFT
+import AbtemVerif.Lib.DFT2
 import AbtemVerif.Gen.FftShiftR
 import Mathlib.Tactic.FieldSimp
 
@@ -228,6 +229,21 @@ theorem planewave_unit_modulus_preserved (P : FourierPair ι) (g : Freqs ι) (or
     (hzero : ∀ k, P.F (fun _ => (1 : ℂ)) k ≠ 0 → g.kx k = 0 ∧ g.ky k = 0) (j : ι) :
     Complex.normSq (propagate P g order dz wl tilts (fun _ => (1 : ℂ)) j) = 1 := by
   rw [planewave_modulus_preserved P g order dz wl tilts 1 hms hzero]; simp
+
+/-- Concrete 2-D DFT (`fft2` on an `n × m` grid): any frequency labelling that vanishes at index 0 of each axis (as
+`fftfreq` does) satisfies `hzero`, so a tilted plane wave keeps unit modulus through vacuum — no hypothesis left. -/
+theorem planewave_unit_modulus_preserved_fft2 (n m : ℕ) [NeZero n] [NeZero m] (fx : ZMod n → ℝ) (fy : ZMod m → ℝ)
+    (hfx : fx 0 = 0) (hfy : fy 0 = 0) (ms : ℝ) (hms : 0 < ms) (order : ℕ) (dz wl : ℝ) (tilts : List (ℝ × ℝ))
+    (j : ZMod n × ZMod m) :
+    Complex.normSq (propagate (zmodPair2 n m) ⟨fun k => fx k.1, fun k => fy k.2, ms⟩ order dz wl tilts
+      (fun _ => (1 : ℂ)) j) = 1 := by
+  apply planewave_unit_modulus_preserved _ _ _ _ _ _ hms
+  intro k hk
+  have : k = (0, 0) := by
+    by_contra hne
+    exact hk ((zmodPair2_hasDC n m).const 1 k hne)
+  subst this
+  exact ⟨hfx, hfy⟩
 
 /-! ### non-vacuity -/
 
